@@ -862,6 +862,33 @@ class Interp:
             out.append(Result_("diverge", None, path, site))
             return None
 
+        if p in RESULT_DEFAULTING and t["t"] is not None and args:
+            # a Result whose error is swallowed and replaced by a default: two continuations. On the error branch the value
+            # no longer depends on what was being computed — rules see it through the terms (e.g. a MAC key made of a constant)
+            recv = args[0]
+            kn = okness(recv, path)
+            last = p.rsplit("::", 1)[-1]
+            branches = [True, False] if kn is None else [bool(kn)]
+            for i, good in enumerate(branches):
+                p2 = path.fork() if i < len(branches) - 1 else path
+                self.assume_switch(p2, ("discr", recv), 0 if good else 1, [0, 1], site, blk["sp"])
+                p2.events.append({"kind": "default", "name": name, "branch": "ok" if good else "err", "fn": site[0], "bb": site[1], "sp": blk["sp"]})
+                if good:
+                    v = self.okv(ctx, p2, recv)
+                    if last in ("map_or", "map_or_else"):
+                        v = self.apply_fn(p2, args[2], v)
+                else:
+                    if last in ("unwrap_or", "map_or"):
+                        v = args[1]
+                    elif last == "unwrap_or_default":
+                        v = ("default", dest_ty)
+                    else:
+                        v = self.apply_fn(p2, args[1], ("errv", recv))
+                self.write(p2, dest, v)
+                if i == len(branches) - 1:
+                    return t["t"]
+                self._walk(ctx, t["t"], p2, visited, out)
+            return None
         r = self.builtin(ctx, path, ce, p, rp, name, args, dest_ty, site, blk, t)
         if r is not NotImplemented:
             self.write(path, dest, r)
@@ -1541,6 +1568,9 @@ def variant_payload(t, vname, idx):
         if t[0] == "agg" and t[1].startswith("adt:") and t[1].endswith("::" + vname) and idx < len(t[2]):
             return t[2][idx]
     return ("variant", t, vname, idx)
+
+RESULT_DEFAULTING = {"core::result::Result::<T, E>::unwrap_or", "core::result::Result::<T, E>::unwrap_or_else", "core::result::Result::<T, E>::unwrap_or_default",
+                     "core::result::Result::<T, E>::map_or", "core::result::Result::<T, E>::map_or_else"}
 
 def type_kind_of(t):
     r = t
